@@ -131,6 +131,9 @@ def check (ws : List String) (impl : String) : String :=
           else if (r = "1") ≠ decide ((p * rf) % rp ≠ 0) then "fail:ratio_rounded_flag"
           else if a < 0 then "fail:nonneg" else "ok"
         | none => "fail:unparsed"
+      | ["err:invalid"] =>
+        -- an orderly refusal is right exactly when the fee itself is not a coin amount (≥ 2^256)
+        if fits256 (ceilDiv (p * rf) rp) then "fail:never_fails:ratio" else "ok"
       | _ => if fits256 (p * rf) then "fail:never_fails:ratio" else "fail:never_fails:ratio_product_ge_2^256"
     | _ => "-"
   | ["applyto", p, rp, rf] =>
@@ -142,7 +145,8 @@ def check (ws : List String) (impl : String) : String :=
         match parseInt? a with
         | some a => if a * rp = p * rf then "ok" else "fail:applyto_exact"
         | none => "fail:unparsed"
-      | ["err:invalid"] => if (p * rf) % rp ≠ 0 then "ok" else "fail:applyto_refuses_exact"
+      | ["err:invalid"] =>
+        if (p * rf) % rp ≠ 0 ∨ !fits256 (ceilDiv (p * rf) rp) then "ok" else "fail:applyto_refuses_exact"
       | _ => if fits256 (p * rf) then "fail:never_fails:applyto" else "fail:never_fails:ratio_product_ge_2^256"
     | _ => "-"
   | ["exsplit", amt, split] =>
